@@ -9,9 +9,10 @@ ROOT = os.path.dirname(os.path.dirname(os.path.abspath(__file__)))
 
 
 def first_sig(m):
-    sigs = (m.get('owning_check_quick_tier') or {}).get('signatures') or []
-    for k in m.get('caught_by_other_check', {}).get('signatures', []) if isinstance(m.get('caught_by_other_check'), dict) else []:
-        sigs = sigs or [k]
+    own = m.get('owning_check_quick_tier') or {}
+    sigs = own.get('signatures') or []
+    if not sigs and own.get('caught_by'):
+        return str(own['caught_by'])[:64]
     if not sigs:
         return ''
     s = sigs[0]
@@ -22,7 +23,9 @@ def first_sig(m):
 
 def status(m):
     if not m.get('caught', False):
-        return m.get('verdict_short', 'no')
+        return 'no (outside the stated properties)' if 'does not violate' in str(m.get('verdict', '')) else 'no'
+    if (m.get('owning_check_quick_tier') or {}).get('caught_by'):
+        return 'after strengthening (by another check)'
     if str(m.get('history', '')).startswith('the earlier version caught it'):
         return 'as it was (on single cases; now on many)'
     w = m.get('owning_check_quick_tier_when_produced')
